@@ -114,6 +114,8 @@ Print Assumptions C03_astSet_clear_needed_refuted.
 (* ---- obligation re-proved on every run over the regenerated inventory ---- *)
 Definition modelled_or_reviewed (c : struct_inv) : bool := struct_reviewed reviewed_state c.
 
+(* diagnostics for a broken obligation: the (struct, field) pairs that are written but not (exactly) reviewed *)
+Eval vm_compute in (unreviewed reviewed_state state_inventory).
 Theorem C03_state_inventory_covered :
   forallb (fun c => no_scratch_writes c || modelled_or_reviewed c) state_inventory = true.
 Proof. vm_compute. reflexivity. Qed.
